@@ -22,14 +22,15 @@ ANN.update({"TimingJobTimerUnion": "timingu"})
 
 class ObjMethod(Func):
     def __init__(self, fd, known, state_type, fields, aliases, objmethods, templates, valdicts=None,
-                 opaque_params=(), opaque_fields=(), constructors=None):
+                 opaque_params=(), opaque_fields=(), constructors=None, opaque_values=None):
         fd = copy.deepcopy(fd)
         # keyword-only parameters are ordinary parameters of the model function; parameters the model has no
         # value for (the callback, its arguments, tags, alias) are dropped: any use of them fails as an unbound name
         fd.args.args = [a for a in fd.args.args + fd.args.kwonlyargs if a.arg not in opaque_params]
         fd.args.kwonlyargs, fd.args.kw_defaults, fd.args.defaults = [], [], []
         Func.__init__(self, fd, known, valdicts=valdicts, has_self=True, state_type=state_type, fields=fields)
-        self.opaque_fields = set(opaque_fields)    # fields without a model value: assignments are skipped unread
+        self.opaque_fields = set(opaque_fields)    # fields without a model value: assignments are skipped unread ...
+        self.opaque_values = opaque_values or {}   # ... unless the only value they may be given is listed here (source text)
         self.constructors = constructors or {}     # class name -> (coq function, [arg types], result type)
         self.aliases = aliases          # '__pending_timer' -> (list field key, index projection, index setter, element type)
         self.objmethods = objmethods    # (type, name) -> (coq function, [arg types], result type, kind)
@@ -164,6 +165,9 @@ class ObjMethod(Func):
         if isinstance(s, ast.Return) and s.value is None:
             return "(Ok self)"
         if isinstance(s, ast.Assign) and len(s.targets) == 1 and self.fkey(s.targets[0]) in self.opaque_fields:
+            want = self.opaque_values.get(self.fkey(s.targets[0]))
+            if want is not None and ast.unparse(s.value) != want:
+                fail(s, "the field without a model value must be assigned `%s`" % want)
             return self.block(rest)
         # f(args) for a translated function that only checks (returns None)
         if isinstance(s, ast.Expr) and isinstance(s.value, ast.Call) and isinstance(s.value.func, ast.Name) \
